@@ -46,24 +46,49 @@ fn walk(ts: TokenStream, out: &mut Set<String>) {
     }
 }
 
-pub fn run(repo: &Path, out: &Path) -> Result<(), String> {
-    let mut lits: Set<String> = Set::new();
-    let mut files = rs_files(&repo.join("tests"));
-    files.extend(rs_files(&repo.join("src")));
-    files.extend(rs_files(&repo.join("examples")));
+fn harvest(files: Vec<PathBuf>, lits: &mut Set<String>) -> Result<usize, String> {
     let mut nfiles = 0;
     for f in files {
         let src = fs::read_to_string(&f).map_err(|e| format!("{f:?}: {e}"))?;
         match src.parse::<TokenStream>() {
             Ok(ts) => {
                 nfiles += 1;
-                walk(ts, &mut lits)
+                walk(ts, lits)
             }
             Err(e) => return Err(format!("{f:?}: {e}")),
         }
     }
+    Ok(nfiles)
+}
+
+/// The corpus of SQL texts for the real-code oracles.  Texts of `tests/` and `examples/` are
+/// harvested from the working tree on every run.  Texts found in `src/` (doc comments, test
+/// modules, messages) come from the committed snapshot `corpus/src_literals.json` when it exists:
+/// a corpus is a set of INPUTS, not part of the tie between model and code, and an input set that
+/// moves with every edited doc comment would turn known defects into fresh alarms on code where
+/// the property holds.  (`translator srcsnap <repo> <verif>/corpus` refreshes the snapshot.)
+pub fn run(repo: &Path, out: &Path) -> Result<(), String> {
+    let mut lits: Set<String> = Set::new();
+    let mut files = rs_files(&repo.join("tests"));
+    files.extend(rs_files(&repo.join("examples")));
+    let mut nfiles = harvest(files, &mut lits)?;
+    let root = std::env::var("VERIF_ROOT").unwrap_or_else(|_| "/verif".to_string());
+    let snap = Path::new(&root).join("corpus/src_literals.json");
+    match fs::read_to_string(&snap).ok().and_then(|t| serde_json::from_str::<Vec<String>>(&t).ok()) {
+        Some(v) => lits.extend(v),
+        None => nfiles += harvest(rs_files(&repo.join("src")), &mut lits)?,
+    }
     let v: Vec<&String> = lits.iter().filter(|s| !s.is_empty() && s.len() < 4000).collect();
     let j = serde_json::json!({ "files": nfiles, "literals": v });
     write_if_changed(&out.join("corpus.json"), &serde_json::to_string(&j).unwrap());
+    Ok(())
+}
+
+/// developer command: write the snapshot of the string literals of `src/`
+pub fn srcsnap(repo: &Path, out: &Path) -> Result<(), String> {
+    let mut lits: Set<String> = Set::new();
+    harvest(rs_files(&repo.join("src")), &mut lits)?;
+    let v: Vec<&String> = lits.iter().filter(|s| !s.is_empty() && s.len() < 4000).collect();
+    write_if_changed(&out.join("src_literals.json"), &serde_json::to_string(&v).unwrap());
     Ok(())
 }
